@@ -32,8 +32,8 @@ CLAIMED["C11"] = dict(
     note=COMMON_NOTE + "Assumed: zstd.Compress/Decompress, the bit-packing reader/writer over io interfaces, pool discipline (a pooled "
          "object is unaliased), objects smaller than 2^60 elements; the float decimal decoder's arithmetic (uninterpreted: the float "
          "codec is proved 'lossless or refused' structurally). Also proved: the escaped array-entry decoder (vararray) is safe, makes "
-         "progress and writes nothing when there is no escape byte. Not under contract: EncodeBytesBlock/BytesBlockDecoder, "
-         "list-level varint value round trip, Int64ListToBytes mode selection, MarshalVarArray round trip. BytesToInt64List is "
+         "progress and writes nothing when there is no escape byte. Not under contract: EncodeBytesBlock value round trip, the "
+         "delta / delta-of-delta bit packing (assumed), the list-level (multi-value) varint round trip. BytesToInt64List is "
          "verified under the precondition itemsCount>=1 (>=2 for delta-of-delta) which its callers take from block metadata.",
     technique="contract-based deductive verification: weakest-precondition VCs from the typed Go AST (govc), loop invariants, "
               "call-by-contract; obligations discharged by z3/cvc5; counterexamples replayed via go test -overlay",
@@ -304,6 +304,53 @@ CLAIMED["C01"] = dict(
               "quantified loop invariant for the verify-or-refuse loop; obligations discharged by z3/cvc5",
     design="§3 C01, §7.2")
 
+# Extensions built after the first complete pass (DESIGN.md §7.6). "Fragment" contracts verify ONE loop of a function from an
+# arbitrary state; "thin" (only-stated) contracts state statement-level assertions for every execution that reaches them and
+# generate no safety obligations; both are labelled as such in the evidence (trusted_base) and are narrower than a full
+# functional contract of the function.
+ADDENDA = {
+    "C12": "Extended to the series-key field codec of pkg/pb/v1: marshalEntityValue writes exactly the escaped value plus one "
+           "delimiter (position map escLen, a recursive spec function with induction lemmas), and unmarshalEntityValue, given any "
+           "field written for a value v, returns v and exactly the rest (inverse direction, for every v via a ghost) - hence "
+           "concatenated keys decode back and two value lists never share a key. Series.Marshal itself stays out of reach (proto).",
+    "C11": "Extended: variable-length integers survive encode+decode exactly for all 2^64 values (real encoder and decoder "
+           "composed in a verif-tagged harness, both inlined, loops unrolled to the 10-byte maximum with unwinding assertions: a "
+           "complete proof); the integer-list mode choice (Int64ListToBytes/isDelta) reports const / delta-const only for lists "
+           "of that shape and never a mode the decoder refuses; const / delta-const decode values; a block tagged plain stores "
+           "its length in one byte and its source; BytesBlockDecoder never rewrites bytes it has handed out.",
+    "C01": "Extended: the escaped array-element codec on the write path of measure and stream (marshalVarArray / "
+           "unmarshalVarArray) and pkg/encoding/vararray.MarshalVarArray under the same exact contract as C12's field codec, "
+           "including the inverse direction.",
+    "C16": "Extended: the node table stays ascending across AddNode / RemoveNode (so it is a function of the set of live "
+           "nodes); operands read from absent generated code are arbitrary values.",
+    "C04": "Extended: WriteAtomic opens its temporary sibling with O_CREATE|O_TRUNC; MustFlushAtomic returns only after "
+           "rename + directory fsync (interface-level contract); fragment contracts for the manifest lookup of loadSnapshot in "
+           "the three engines (a part is an orphan only if NO manifest entry names it, no sortedness assumed).",
+    "C13": "Extended: dropped-trace-id set lookup (sound on any well-formed table; complete for every recorded id whose probe "
+           "path is occupied - buildIndex itself not under contract); the merged part's time range covers every input (trace and "
+           "sidx, fragment contracts); sidx mergeBlocks never resets a pending block holding unwritten rows (thin typestate "
+           "contract); trace searchPBM drops only primary blocks wholly before the wanted trace id.",
+    "C03": "Extended: conflict-column / conflict-tag renaming renames exactly the conflicting columns in every tag family "
+           "(measure, stream, trace; full contracts with maps); the set of parts a merge removes is exactly the ids of the parts "
+           "the policy chose (fragment contracts, three engines); sidx merged time range (fragment).",
+    "C02": "Extended by thin statement-level contracts of the version rule at its three sites: batch build "
+           "(mustInitFromDataPoints: the remembered (series, timestamp) is the previous surviving row's; only a repeat is "
+           "skipped and a repeat is never kept), part merge (mergeTwoBlocks: the left duplicate is kept only if not older, the "
+           "right one copied only if strictly newer) and query merge (queryResult.merge: append only a new timestamp, overwrite "
+           "only the same timestamp with a higher version). The full functional contracts of the last two remain parked (WIP).",
+    "C06": "Extended: on reload a segment gets exactly the end recorded in its metadata when there is one (thin contract on the "
+           "loadSegments callback, run from an arbitrary state).",
+    "C07": "Extended: getRetentionDeadline is now proved (not assumed) to be exactly clock.Now() - TTL in nanoseconds "
+           "(estimatedDuration proved; the clock is a ghost), and SelectSegments' hidden-segment clause is stated against it.",
+    "C08": "Extended: searchPBM (measure, stream) drops only primary blocks wholly before the wanted series; sidx Having uses the "
+           "scalar MightContain only for scalar tags (thin).",
+    "C09": "Extended (thin): a sidx block cursor joins the merge on the first / last of ITS loaded rows; an element is marked "
+           "seen only if it is inside the key range.",
+    "C19": "Extended (thin): the hard-link walk prunes (SkipDir) only for a rejected directory, never for a rejected file.",
+}
+for _k, _v in ADDENDA.items():
+    CLAIMED[_k]["text"] = CLAIMED[_k]["text"] + " " + _v
+
 NOT_APPLICABLE = {
     "C15": "equivalence of two whole query pipelines over generated proto types: translation validation, no function contract states it (DESIGN.md §5)",
     "C17": "whole-cluster equivalence and gRPC/proto-typed transfer code with no type information in this tree (DESIGN.md §5)",
@@ -342,7 +389,7 @@ manifest = {
     "setup_cmd": "cd /verif/govc && GOFLAGS=-mod=vendor GOPROXY=off go build -o /verif/bin/govc .",
     "hooks": {
         "guard": "verif",
-        "enable": "contract files zz_contracts_verif.go carry //go:build verif and contain only comments; govc loads packages with -tags=verif",
+        "enable": "contract files zz_contracts_verif.go carry //go:build verif and contain only comments; pkg/encoding/zz_harness_verif.go (same tag) holds two round-trip compositions of the real var-int encoder and decoder that only the verifier reads; govc loads packages with -tags=verif",
         "baseline_off_cmd": "cd /repo && GOFLAGS=-mod=mod GOPROXY=off go test -json -vet=off -count=1 -timeout 25m ./...",
         "source_commits": hook_commits,
         "add_only": True,
